@@ -134,3 +134,54 @@ pub fn dec_round_drop_round<D: Dec, const K: usize, const R: usize>(om1: u32, rm
     }
     check_dec::<D, K, R>(&mut d, om, rm, p, g);
 }
+
+/// state after (adds without a round) + reset/hand-over equals the state of a
+/// freshly constructed codec of the target configuration (configuration,
+/// counters, every received bit) - working memory aside (covered above)
+pub fn dec_reset_state<D1: Dec, D2: Dec + DecState>(a: (usize, usize, usize), om: u32, rm: u32, kk: usize, r: usize, sb: usize, conv: fn(D1, usize, usize, usize) -> D2) {
+    let mut d1 = D1::mk(a.0, a.1, a.2).unwrap();
+    let s = vec![k::any::<u8>(); a.2];
+    let mut i = 0;
+    while i < a.0 {
+        if om >> i & 1 == 1 {
+            d1.add_o(i, &s).unwrap();
+        }
+        i += 1;
+    }
+    let mut j = 0;
+    while j < a.1 {
+        if rm >> j & 1 == 1 {
+            d1.add_r(j, &s).unwrap();
+        }
+        j += 1;
+    }
+    let d2 = conv(d1, kk, r, sb);
+    let fresh = D2::mk(kk, r, sb).unwrap();
+    let (x, y) = (d2.snap(), fresh.snap());
+    let (vx, vy) = (x.view.unwrap(), y.view.unwrap());
+    assert!(vx.original_count == vy.original_count && vx.recovery_count == vy.recovery_count && vx.shard_bytes == vy.shard_bytes);
+    assert!(vx.original_base_pos == vy.original_base_pos && vx.recovery_base_pos == vy.recovery_base_pos);
+    assert!(vx.original_received_count == 0 && vx.recovery_received_count == 0, "reset kept a received counter");
+    assert!(vx.shards.shard_count == vy.shards.shard_count && vx.shards.shard_len_64 == vy.shards.shard_len_64 && vx.shards.data_len == vy.shards.data_len);
+    let mut i = 0;
+    while i < 16 {
+        assert!(!x.received[i], "reset left a received bit set: the reused decoder differs from a fresh one");
+        i += 1;
+    }
+}
+
+pub fn enc_reset_state<E1: Enc, E2: Enc + EncState>(a: (usize, usize, usize), n: usize, kk: usize, r: usize, sb: usize, conv: fn(E1, usize, usize, usize) -> E2) {
+    let mut e1 = E1::mk(a.0, a.1, a.2).unwrap();
+    let s = vec![k::any::<u8>(); a.2];
+    let mut i = 0;
+    while i < n {
+        e1.add(&s).unwrap();
+        i += 1;
+    }
+    let e2 = conv(e1, kk, r, sb);
+    let fresh = E2::mk(kk, r, sb).unwrap();
+    let (vx, vy) = (e2.snap().view.unwrap(), fresh.snap().view.unwrap());
+    assert!(vx.original_count == vy.original_count && vx.recovery_count == vy.recovery_count && vx.shard_bytes == vy.shard_bytes);
+    assert!(vx.original_received_count == 0, "reset kept the received counter");
+    assert!(vx.shards.shard_count == vy.shards.shard_count && vx.shards.shard_len_64 == vy.shards.shard_len_64 && vx.shards.data_len == vy.shards.data_len);
+}
